@@ -289,15 +289,20 @@ class _PidSlow:
 
 def discard(sc):
     """a job discarded while it runs, on a pool that recycles: the next job is not held up"""
-    pool = bp.Pool(1, maxtasksperchild=sc.get('quota', 1))
+    pool = bp.Pool(sc.get('procs', 1), maxtasksperchild=sc.get('quota', 1) or None,
+                   putlocks=bool(sc.get('putlocks')))
     t0 = time.monotonic()
     h1 = pool.apply_async(targets.pid_task, (1, 0.5))
     time.sleep(0.2)
     h1.discard()
     h2 = pool.apply_async(targets.pid_task, (2, 0.01))
     o = _outcome(h2, 45)
-    return {'kind': 'discard', 'outcome': o[0], 'exc': o[1] if o[0] == 'exc' else '',
-            'secs10': int((time.monotonic() - t0) * 10)}
+    res = {'kind': 'discard', 'outcome': o[0], 'exc': o[1] if o[0] == 'exc' else '',
+           'secs10': int((time.monotonic() - t0) * 10)}
+    time.sleep(1.0)                       # the discarded job's result has arrived and been dropped
+    res['slots_free'] = pool._putlock._value
+    res['slots'] = pool._putlock._initial_value
+    return res
 
 
 def signal_one(sc):
